@@ -107,6 +107,123 @@ theorem cancel_returns_and_frees (s : St) (hr : Reach s) (a : Acc) (id : Id)
     s'.apc a = some (.done none) ∧ s'.certs id = none ∧ s'.chans id = none := by
   simp [run, step, accStep, hpc, hid, Map.set, Map.del]
 
+/-- reachability is closed under further operations -/
+theorem reach_run {s : St} (hr : Reach s) (ops : List Op) : Reach (run ops s) := by
+  obtain ⟨ops0, rfl⟩ := hr
+  exact ⟨ops0 ++ ops, by simp [run, List.foldl_append]⟩
+
+/-- the program counter of a cancelled acceptor after `k` further steps of its own -/
+def cancelPc : Nat → APc
+  | 0 => .rmChan none
+  | 1 => .rmCert none
+  | _ => .done none
+
+/-- the number of steps acceptor `a` takes in an operation list -/
+def stepsOf (a : Acc) : List Op → Nat
+  | [] => 0
+  | .accStep b :: ops => (if b = a then 1 else 0) + stepsOf a ops
+  | _ :: ops => stepsOf a ops
+
+/-- a cancelled acceptor only moves by its own steps, whatever everybody else does -/
+theorem step_cancelPc (t : St) (a : Acc) (id : Id) (k : Nat) (op : Op)
+    (hpc : t.apc a = some (cancelPc k)) (hid : t.accId a = some id) :
+    (step t op).apc a = some (cancelPc (k + stepsOf a [op])) ∧ (step t op).accId a = some id := by
+  have hhas : t.apc.has a = true := by simp [Map.has, hpc]
+  cases op with
+  | accStart b id' =>
+    simp only [step, stepsOf, Nat.add_zero]
+    by_cases hb : b = a
+    · subst hb; simp [hhas, hpc, hid]
+    · split
+      · exact ⟨hpc, hid⟩
+      · simp [Map.set, Ne.symm hb, hpc, hid]
+  | accStep b =>
+    by_cases hb : b = a
+    · subst hb
+      simp only [step, stepsOf, if_true, Nat.add_zero]
+      match k, hpc with
+      | 0, hpc => simp [accStep, cancelPc] at hpc ⊢; simp [hpc, hid, Map.set]
+      | 1, hpc => simp [accStep, cancelPc] at hpc ⊢; simp [hpc, hid, Map.set]
+      | k + 2, hpc => simp [accStep, cancelPc] at hpc ⊢; simp [hpc, hid]
+    · have hne : a ≠ b := Ne.symm hb
+      simp only [step, stepsOf, hb, if_false, Nat.add_zero]
+      unfold accStep
+      split <;> (try split) <;> simp [Map.set, hne, hpc, hid]
+  | accCancel b =>
+    simp only [step, stepsOf, Nat.add_zero]
+    by_cases hb : b = a
+    · subst hb
+      have : t.apc b ≠ some .waiting := by rw [hpc]; cases k with
+        | zero => simp [cancelPc]
+        | succ k => cases k <;> simp [cancelPc]
+      split
+      · rename_i h; exact absurd h this
+      · exact ⟨hpc, hid⟩
+    · split
+      · simp [Map.set, Ne.symm hb, hpc, hid]
+      · exact ⟨hpc, hid⟩
+  | hsStart h rnd cert =>
+    simp only [step, stepsOf, Nat.add_zero]
+    split <;> exact ⟨hpc, hid⟩
+  | hsStep h =>
+    simp only [step, stepsOf, Nat.add_zero]
+    unfold hsStep
+    split <;> (try split) <;> exact ⟨hpc, hid⟩
+  | hsTimeout h =>
+    simp only [step, stepsOf, Nat.add_zero]
+    split <;> exact ⟨hpc, hid⟩
+
+theorem run_cancelPc (ops : List Op) (t : St) (a : Acc) (id : Id) (k : Nat)
+    (hpc : t.apc a = some (cancelPc k)) (hid : t.accId a = some id) :
+    (run ops t).apc a = some (cancelPc (k + stepsOf a ops)) := by
+  induction ops generalizing t k with
+  | nil => simpa [run, stepsOf] using hpc
+  | cons op ops ih =>
+    obtain ⟨h1, h2⟩ := step_cancelPc t a id k op hpc hid
+    have := ih (step t op) (k + stepsOf a [op]) h1 h2
+    have hs : stepsOf a (op :: ops) = stepsOf a [op] + stepsOf a ops := by
+      cases op <;> simp [stepsOf]
+    rw [hs, ← Nat.add_assoc]
+    exact this
+
+/-- **A cancelled `Accept` returns and leaves nothing registered, under any interleaving.**  From any
+reachable state in which acceptor `a` sits in its `select`: once its context is cancelled, whatever all
+other acceptors and handshake goroutines do in between (any operation list), as soon as `a` itself has
+taken two steps (its two deferred removals) it has returned `ctx.Err()`, and it owns no entry of either
+map. -/
+theorem cancelled_accept_returns (s : St) (hr : Reach s) (a : Acc) (id : Id)
+    (hpc : s.apc a = some .waiting) (hid : s.accId a = some id)
+    (ops : List Op) (h2 : 2 ≤ stepsOf a ops) :
+    let s' := run (.accCancel a :: ops) s
+    s'.apc a = some (.done none) ∧ ∀ id', s'.certs id' ≠ some a ∧ s'.chans id' ≠ some a := by
+  intro s'
+  have h0 : (step s (.accCancel a)).apc a = some (cancelPc 0) ∧ (step s (.accCancel a)).accId a = some id := by
+    simp [step, hpc, Map.set, cancelPc, hid]
+  have hrun := run_cancelPc ops (step s (.accCancel a)) a id 0 h0.1 h0.2
+  have hdone : s'.apc a = some (.done none) := by
+    show (run ops (step s (.accCancel a))).apc a = _
+    rw [hrun]
+    have : ∃ m, 0 + stepsOf a ops = m + 2 := ⟨stepsOf a ops - 2, by omega⟩
+    obtain ⟨m, hm⟩ := this
+    rw [hm]; rfl
+  refine ⟨hdone, ?_⟩
+  have hr' : Reach s' := reach_run hr (.accCancel a :: ops)
+  exact cancel_leaves_nothing s' hr' a _ hdone (Or.inl ⟨none, rfl⟩)
+
+/-- **Cancel racing a delivered connection.**  When a connection sits in the channel of a waiting
+acceptor and its context is cancelled at the same moment, Go's `select` may take either case.  Both
+ways the acceptor returns after its two deferred removals and its secret is free again; the receive
+branch returns exactly the buffered connection. -/
+theorem select_either_way_frees (s : St) (a : Acc) (id : Id) (c : Hs)
+    (hpc : s.apc a = some .waiting) (hid : s.accId a = some id) (hb : s.buf a = some c) :
+    (let s' := run [.accStep a, .accStep a, .accStep a] s
+     s'.apc a = some (.done (some c)) ∧ s'.certs id = none ∧ s'.chans id = none) ∧
+    (let s' := run [.accCancel a, .accStep a, .accStep a] s
+     s'.apc a = some (.done none) ∧ s'.certs id = none ∧ s'.chans id = none) := by
+  constructor
+  · simp [run, step, accStep, hpc, hid, hb, Map.set, Map.del]
+  · simp [run, step, accStep, hpc, hid, Map.set, Map.del]
+
 /-- **Both maps are empty when every `Accept` has returned** (or has not registered yet), whatever
 happened before: deliveries, cancellations, duplicates, failed handshakes, in any order. -/
 theorem maps_empty_when_all_returned (s : St) (hr : Reach s)
@@ -236,6 +353,17 @@ end stream
 /-! ## heartbeats -/
 section heartbeat
 open CJ.SctpConn CJ.Heartbeat
+
+/-- the payload the filter works with is never empty (so a failed stream read, `n = 0`, is never taken
+for a heartbeat): `validate` replaces an unset or empty payload by the default one -/
+theorem validate_nonempty (dflt : Bytes) (hd : dflt ≠ []) (conf : Option Bytes) : validate dflt conf ≠ [] := by
+  cases conf with
+  | none => exact hd
+  | some hb =>
+    simp only [validate]
+    split
+    · exact hd
+    · assumption
 
 /-- **Keep-alive heartbeats never surface**: no message that reaches the reader of `hbConn` is the
 heartbeat payload, whatever the stream below delivers … -/
